@@ -195,25 +195,33 @@ def addColSteps (tbl : Name) : AList Column → Steps
     else if c.notNull && c.dflt.isNone then ([], some .notNullNeedsDefault)
     else Steps.andThen ([.addColumn tbl n c], none) (addColSteps tbl r)
 
+/-- the new definition of an index that exists in both schemas and differs -/
+def changedIndex (old new : AList Index) (k : Name) : Option Index :=
+  match lookup k new with
+  | some i => if lookup k old = some i then none else some i
+  | none => none
+
 /-- new indexes are created, dropped ones dropped, changed ones dropped and created again -/
 def indexActions (tbl : Name) (old new : AList Index) : List Action :=
   ((keys new).filter (fun k => !contains k old)).filterMap
       (fun k => (lookup k new).map (fun i => Action.createIndex tbl k i))
   ++ ((keys old).filter (fun k => !contains k new)).map (fun k => Action.dropIndex tbl k)
-  ++ ((keys old).filterMap (fun k => match lookup k new with
-        | some i => if lookup k old = some i then none
-                    else some [Action.dropIndex tbl k, Action.createIndex tbl k i]
-        | none => none)).flatten
+  ++ ((keys old).filterMap (fun k => (changedIndex old new k).map
+        (fun i => [Action.dropIndex tbl k, Action.createIndex tbl k i]))).flatten
 
 def newCols (t nt : Table) : AList Column := nt.cols.filter (fun e => !contains e.1 t.cols)
+
+/-- an existing column whose definition (or key flag) differs in the new table -/
+def colChanged (t nt : Table) (c : Name) : Bool :=
+  match lookup c nt.cols with
+  | some c' => decide (lookup c t.cols ≠ some c')
+  | none => false
 
 /-- one intersecting table: dropped column → error; changed column → error; key list changed
 (ordered comparison) → error; new columns; index diff. -/
 def tableSteps (name : Name) (t nt : Table) : Steps :=
   if (keys t.cols).any (fun c => !contains c nt.cols) then ([], some .removeColumn)
-  else if (keys t.cols).any (fun c => match lookup c nt.cols with
-      | some c' => decide (lookup c t.cols ≠ some c')
-      | none => false) then ([], some .changeColumn)
+  else if (keys t.cols).any (colChanged t nt) then ([], some .changeColumn)
   else if t.pk ≠ nt.pk then ([], some .modifyPk)
   else Steps.andThen (addColSteps name (newCols t nt)) (indexActions name t.idx nt.idx, none)
 
@@ -373,10 +381,13 @@ def applySchema (db : Tables) (old new : Schema) : Except Err (Tables × Schema 
     | none => .ok (db', reorderSchema old (merge new imp), steps.1, keys imp)
 
 /-- the loop rewriting `__corro_schema` for every submitted table from `sqlite_schema` -/
+def persistStep (tables : Tables) (p : Schema) (n : Name) : Schema :=
+  match lookup n tables with
+  | some dt => insert n dt.tbl p     -- DELETE … ; INSERT … SELECT … FROM sqlite_schema
+  | none => erase n p
+
 def rewritePersisted (tables : Tables) (names : List Name) (p : Schema) : Schema :=
-  names.foldl (fun p n => match lookup n tables with
-    | some dt => insert n dt.tbl p
-    | none => erase n p) p
+  names.foldl (persistStep tables) p
 
 /-! ### the node -/
 
